@@ -1,5 +1,4 @@
-import AC.OptX
-import AC.Opt
+import AC.OptProof
 /-! # C10 — chain optimisation only removes elements and keeps the chain valid
 
 Model: `P.OptX.optimize` (alg/opt/opt.go, index based, with the conservative re-counting of
@@ -7,37 +6,32 @@ singleton lists and the in-place filtering of `pruneuses`). -/
 namespace AC.Props.C10
 open P P.OptX
 
-/-- full statement of the property over the executable model -/
-def C10_Statement : Prop :=
-  ∀ c : Chain, IsChain c →
+/-- for every valid addition chain, in any element order: the result is a valid addition chain, a
+    subsequence of the input, keeps the first element 1 and the same last element -/
+theorem C10_optimize (c : Chain) (hc : IsChain c) :
     IsChain (optimize c) ∧ (optimize c).Sublist c ∧ (optimize c).head? = some 1 ∧
-    (optimize c).getLast? = c.getLast?
+    (optimize c).getLast? = c.getLast? := optimize_ok c hc
 
-/-- the result is a subsequence of the input, hence never longer (any input) -/
-theorem C10_sublist (c : Chain) : (optimize c).Sublist c ∧ (optimize c).length ≤ c.length := by
-  have h : (optimize c).Sublist c := by
-    unfold optimize
-    simp only []
-    have h1 := (List.filter_sublist (l := c.zipIdx)
-      (p := fun p => !(List.foldl (step c.length) (initSt c)
-        (List.filter (fun x => decide (0 < x)) (List.range (c.length - 1)))).remove.contains p.2)).map (·.1)
-    have h2 : c.zipIdx.map (·.1) = c := by simp [List.zipIdx_map_fst] 
-    rw [h2] at h1
-    exact h1
-  exact ⟨h, h.length_le⟩
+/-- hence never longer than the input -/
+theorem C10_not_longer (c : Chain) (hc : IsChain c) : (optimize c).length ≤ c.length :=
+  (optimize_ok c hc).2.1.length_le
 
-/-- the combinatorial core (proved at the level of alternatives valued by chain elements): after
-    any run of the candidate loop, with the counters of `Optimize` (including its over-counting),
-    every element that was not removed is still the sum of two elements that were not removed -/
-theorem C10_core_alternatives (touched : Int → P.Opt.Node → Bool) (cands : List Int) (st : P.Opt.OS)
-    (h : P.Opt.SInv st)
-    (hun : ∀ (k : Int) (nodes : List P.Opt.Node), ∀ nd ∈ nodes,
-      touched k (P.Opt.prune k nd) = false → P.Opt.prune k nd = nd) :
-    let fin := cands.foldl (P.Opt.optStep touched) st
-    ∀ nd ∈ fin.nodes, nd.val ∉ fin.removed → ∃ a ∈ nd.alts, a.1 ∉ fin.removed ∧ a.2 ∉ fin.removed :=
-  P.Opt.opt_core touched cands st h hun
+/-- the loop invariant behind it: every list of alternatives stays a duplicate-free subset of the
+    original `Ops`, non-removed positions keep at least one alternative avoiding every removed
+    position, singleton lists have positively counted operands, only interior positions are removed -/
+theorem C10_invariant (c : Chain) (hc : IsChain c) :
+    Inv c (((List.range (c.length - 1)).filter (0 < ·)).foldl (step c.length) (initSt c)) := by
+  apply fold_inv c hc.2.2.2.1 _ _ (init_inv c hc)
+  intro k hk
+  simp at hk
+  omega
 
-/-- non-vacuity: a redundant chain loses an element -/
-example : isChainB [1,2,3,4,5] = true := by decide
+/-- in a duplicate-free chain at most one op of a position uses a given index -/
+theorem C10_uses_unique (c : Chain) (hnd : c.Nodup) (l : Nat) (hl : l < c.length) (k : Nat) (o o' : Op)
+    (ho : o ∈ P.ops c l) (ho' : o' ∈ P.ops c l) (hu : uses o k = true) (hu' : uses o' k = true) : o = o' :=
+  ops_uses_unique c hnd l hl k o o' ho ho' hu hu'
+
+/-- non-vacuity: a valid non-ascending redundant chain -/
+example : IsChain [1,2,3,4,5] := (isChainB_iff _).1 (by decide)
 
 end AC.Props.C10
